@@ -57,7 +57,7 @@ fn own_batches(prop: &str) -> Vec<Batch> {
         "C04" => vec![b("B", "sizes", 3000, 120_000), b("B", "large", 400, 20_000), b("B", "basic", 1500, 60_000)],
         "C06" => vec![b("B", "cache", 3000, 150_000)],
         "C07" => vec![b("B", "basic", 2000, 100_000), b("B", "faulty", 3000, 150_000), b("B", "burst", 800, 40_000), b("B", "sizes", 800, 40_000), b("B", "idreuse", 600, 40_000), b("B", "tcpidle", 1000, 60_000), b("B", "pipeline", 800, 40_000)],
-        "C14" => vec![b("B", "large", 500, 20_000), b("B", "sizes", 2000, 80_000)],
+        "C14" => vec![b("B", "large", 500, 20_000), b("B", "sizes", 2000, 80_000), b("B", "hostile", 1200, 50_000)],
         "C15" => vec![b("B", "routes", 3000, 160_000), b("B", "basic", 1000, 40_000)],
         "C16" => vec![b("B", "flood", 1200, 60_000), b("B", "cookie", 1200, 60_000), b("B", "manyflood", 100, 4_000)],
         _ => vec![],
@@ -73,7 +73,7 @@ pub fn expected_probes(prop: &str) -> &'static [&'static str] {
         "C09" => &["C09.client_holds_several_leases", "C09.refused_no_address", "config.swapped_live", "clock.backward_step"],
         "C10" => &["C10.clamped_at_max", "C10.clamped_at_min", "clock.backward_step", "restart.clean"],
         "C12" => &["C12.broadcast_bit_set", "C12.other_flag_bits_set", "C12.tracer_option_over_255", "C12.request_with_split_options"],
-        "C13" => &["C13.foreign_server_id", "C13.decline_or_release_for_held_address", "restart.clean"],
+        "C13" => &["C13.message_meant_for_this_server_got_no_reply", "C13.foreign_server_id", "C13.decline_or_release_for_held_address", "restart.clean"],
         "C18" => &["C18.crash_during_boot", "C18.recovered_after_kill", "C18.image_v0", "C18.image_v0_without_version_row", "C18.image_v0_without_version_table", "C18.image_newer_schema", "C18.newer_schema_refused", "C18.restart_pair_compared", "C18.crash_after_write:leases.sqlite", "C18.crash_after_sync:leases.sqlite", "C18.crash_after_write:leases.sqlite-journal", "C18.crash_after_delete:leases.sqlite-journal"],
         "C20" => &["C20.listing_of_empty_store", "C20.gauges_of_empty_store", "C20.all_leases_expired", "C20.scrape_in_the_second_of_an_expiry", "C20.scrape_one_second_before_an_expiry", "C20.scrape_one_second_after_an_expiry", "C20.gauges_judged_exactly_at_an_expiry_second"],
         "C05" => &["C05.liveness_probe_after_hostile_input", "C05.router_solicitation_probe", "C05.unsolicited_advertisement_seen"],
@@ -82,7 +82,7 @@ pub fn expected_probes(prop: &str) -> &'static [&'static str] {
         "C04" => &["C04.truncated_response", "C14.response_over_16k", "C14.many_compression_pointers"],
         "C06" => &["C06.served_from_cache", "C06.hit_exactly_at_ttl", "C06.query_aimed_at_ttl_boundary", "C06.near_miss_key_in_same_run", "C06.repeated_key_resolved_upstream"],
         "C07" => &["C07.response_from_per_address_socket_of_bind_addresses_interfaces", "C07.several_queries_on_one_client_connection", "C07.upstream_connection_died_inside_the_second_of_two_pipelined_replies", "C07.query_aimed_at_upstream_tcp_idle_timers", "C07.several_responses_seen", "C07.servfail_after_fault", "C07.query_to_secondary_local_address", "C07.response_sent_from_ipv4_only_listener", "in.udp.no_socket"],
-        "C14" => &["C14.response_over_16k", "C14.many_compression_pointers", "C14.name_expanded_through_more_than_10_pointers_in_a_row", "C14.name_expanded_through_more_than_60_pointers_in_a_row"],
+        "C14" => &["C14.response_over_16k", "C14.many_compression_pointers", "C14.name_expanded_through_more_than_10_pointers_in_a_row", "C14.name_expanded_through_more_than_60_pointers_in_a_row", "C14.hostile_reply_accepted_and_relayed", "C14.flowing_message_refused_by_decoder", "C14.flowing_message_survives_encode_decode"],
         "C15" => &["C15.forge_nxdomain_route", "C15.forward_route", "C15.no_route", "C15.no_recursion_desired_on_forward_route"],
         "C16" => &[
             "C16.flood_of_100_or_more",
